@@ -214,6 +214,65 @@ class Plugin:
         return cases
 
     # ------------------------------------------------------------------ implementation
+    def impl_search(self, rng, tier):
+        """Implementation-only probe of the second observation point of the statement, "headers delivered to SsdpProtocol
+        on_data callbacks": sequences of datagrams handed to ONE SsdpProtocol object; every delivery must carry the
+        sender metadata of ITS datagram (_host, _port, _remote_addr), whatever was delivered before - in particular the
+        same bytes from the same host and another port.  The model has no protocol object: never stands in for a theorem."""
+        import asyncio
+        from async_upnp_client.ssdp import SsdpProtocol, build_ssdp_packet, get_host_string
+        n = 400 if tier == "thorough" else 60
+        found, done = [], 0
+        loop = asyncio.new_event_loop()
+        try:
+            for _ in range(n):
+                got = []
+                proto = SsdpProtocol(loop, on_data=lambda rl, h: got.append((rl, h)))
+
+                class _T:
+                    def get_extra_info(self, _n):
+                        return None
+                proto.connection_made(_T())
+                start, hs = rng.choice([("NOTIFY * HTTP/1.1", [["NT", "upnp:rootdevice"], ["NTS", "ssdp:alive"], ["USN", "uuid:a::upnp:rootdevice"],
+                                                               ["LOCATION", "http://192.168.1.10:80/d.xml"]]),
+                                        ("HTTP/1.1 200 OK", [["ST", "upnp:rootdevice"], ["USN", "uuid:b::upnp:rootdevice"], ["LOCATION", "http://[fe80::2]:80/d"]])])
+                data = build_ssdp_packet(start, dict(hs))
+                other = build_ssdp_packet(start, dict(hs + [["X-N", "1"]]))
+                hosts = [("192.168.1.10", None), ("fe80::1", 3), ("2001:db8::5", 0)]
+                seq = []
+                for _k in range(rng.randint(2, 6)):
+                    host, scope = rng.choice(hosts[:2] if rng.random() < 0.7 else hosts)
+                    port = rng.choice([1900, 50000, 1901])
+                    addr = (host, port) if scope is None else (host, port, 0, scope)
+                    seq.append((rng.choice([data, data, data, other, b"junk"]), addr))
+                bad = None
+                for i, (d, addr) in enumerate(seq):
+                    del got[:]
+                    try:
+                        proto.datagram_received(d, addr)
+                    except Exception as e:  # noqa: BLE001
+                        bad = [i, "raised " + type(e).__name__]
+                        break
+                    if d == b"junk":
+                        continue
+                    if len(got) != 1:
+                        bad = [i, f"{len(got)} deliveries"]
+                        break
+                    h = got[0][1]
+                    want = {"_host": get_host_string(addr), "_port": addr[1], "_remote_addr": addr}
+                    have = {k: h.get(k) for k in want}
+                    if have != want:
+                        bad = [i, {"delivered": {k: str(v) for k, v in have.items()}, "expected": {k: str(v) for k, v in want.items()}}]
+                        break
+                done += 1
+                if bad:
+                    found.append(("roundtrip", {"protocol_sequence": [[list(d), list(a)] for d, a in seq]}, {"step": bad[0], "what": bad[1]},
+                                  "impl-search: a datagram delivered through SsdpProtocol.on_data carries sender metadata that is not its own"))
+                    break
+        finally:
+            loop.close()
+        return found, done
+
     def run_impl(self, case):
         from aiohttp.http_exceptions import InvalidHeader, LineTooLong
         from async_upnp_client import ssdp
